@@ -43,6 +43,12 @@ Definition replace_word (w repl : str) (line : str) : str :=
 
 Definition mem (w : str) (l : list str) : bool := existsb (str_eqb w) l.
 
+(* letter case: register names (and mnemonics) are compared without regard to it *)
+Definition lower (c : Z) : Z := if is_upper c then c + 32 else c.
+Definition str_eqb_ci (a b : str) : bool := str_eqb (map lower a) (map lower b).
+(* is n the name of a register, in any letter case (D53) *)
+Definition reg_mem (n : str) (regs : list str) : bool := mem (map lower n) (map (map lower) regs).
+
 Fixpoint resolve (fuel : nat) (t : table) (resolved : list str) (line : str) : result str :=
   match fuel with
   | O => OutOfFuel
